@@ -4,7 +4,8 @@ A sample of the harness's lines is rendered as Gallina terms and evaluated with 
 inside Coq against the observed results; the OCaml runner (extraction + driver) already agreed
 with the implementation on these lines, so this closes the triangle impl = extracted model =
 model as the kernel evaluates it.  Only pure engines whose arguments are easy to render are
-covered (metric, security); stateful engines rely on the extraction alone (stated in DESIGN.md).
+covered (metric, security, the pure bep44 lines) plus the `mpass` lines of the maint engine (a whole pass of the table
+maintainer per line, compared by RunMaintCheck.rm_check); the other stateful engines rely on the extraction alone (DESIGN.md).
 """
 import os, re, subprocess
 
@@ -33,9 +34,58 @@ def ami(tok):
     return "(mkAmi (ap_of_ip %s %s) %s)" % (cbytes(ip), cN(port), idt)
 
 
+NOW = 1000000000000000000
+
+def render_mpass(a, o):
+    """a: tokens after the op name (idx, k=v ...); o: observed tokens"""
+    kv = dict(t.split("=", 1) for t in a[1:] if "=" in t)
+    def lst(s, sep):
+        return [] if s in ("", "-") else s.split(sep)
+    def age(s):
+        return "None" if s == "-1" else "(Some (%d)%%Z)" % (NOW - int(s))
+    def key(tok):      # iphex:port, already in the normalised form
+        ip, port = tok.rsplit(":", 1)
+        return "(%s, (%s)%%N)" % (cbytes(ip), port)
+    def glist(items, ty):
+        return "([%s] : list %s)" % ("; ".join(items), ty)
+    cls = {"g": "0", "q": "1", "b": "2"}
+    nodes, classes = [], []
+    for t in lst(kv.get("nodes", ""), ","):
+        slot, idh, ip, port, qa, ra, failed, c = t.split("/")
+        nodes.append("(rm_node (toN %s) %s (%s)%%N %s %s %s (%s)%%nat)" % (cbytes(idh), cbytes(ip), port, age(qa), age(ra), "true" if failed == "1" else "false", slot))
+        classes.append("(%s)%%N" % cls[c])
+    answering = []
+    for t in lst(kv.get("answers", ""), ","):
+        idh, ip, port = t.split("/")
+        answering.append("(toN %s, addr_key (mkAddr %s (%s)%%N))" % (cbytes(idh), cbytes(ip), port))
+    boot, obs, after = [], [], []
+    for t in o:
+        if t.startswith("boot:"):
+            boot = [key(x) for x in lst(t[5:], ";")]
+        elif t.startswith("ping:") or t.startswith("refresh:"):
+            kind, i, rest = t.split(":", 2)
+            obs.append("(%s (%s)%%nat %s)" % ("ROPing" if kind == "ping" else "RORefresh", i, glist([key(x) for x in lst(rest, ";")], "rmk")))
+        elif t.startswith("break:"):
+            obs.append("(ROBreak (%s)%%nat)" % t[6:])
+        elif t == "done":
+            obs.append("RODone")
+        elif t.startswith("after:"):
+            for e in lst(t[6:], ";"):
+                idh, k, c, f = e.split("/")
+                after.append("(toN %s, %s, (%s)%%N, %s)" % (cbytes(idh), key(k), cls[c], "true" if f == "1" else "false"))
+        else:
+            return None
+    return "rm_check (rm_cfg (toN %s) %s) (%d)%%Z %s %s %s %s %s %s" % (
+        cbytes(kv["root"]), "true" if kv.get("nosec") == "1" else "false", NOW,
+        glist(answering, "(N * (bytes * N))"), glist(nodes, "node"), glist(classes, "N"),
+        glist(boot, "rmk"), glist(obs, "rm_obs"), glist(after, "rm_after_entry"))
+
+
 def render(op, a, o):
     """returns a Gallina boolean expression or None when the line is not covered"""
     try:
+        if op == "mpass":
+            return render_mpass(a, o)
         if op == "xor":
             return "bytes_eqb (xorl %s %s) %s" % (cbytes(a[0]), cbytes(a[1]), cbytes(o[0]))
         if op == "cmp":
@@ -98,6 +148,7 @@ IMPORTS = {
     "metric": "From Dht Require Import Base Int160 Order RunMetric.",
     "security": "From Dht Require Import Base Sha1 Crc32c Security.",
     "bep44": "From Dht Require Import Base Sha1 Bep44 RunBep44.",
+    "maint": "From Dht Require Import Base Msg Server Maint RunServer RunMaint RunMaintCheck.",
 }
 
 
@@ -109,12 +160,14 @@ def run(coq_dir, work_dir, engine, data_lines, sample=300):
     for l in data_lines:
         lhs, _, rhs = l.partition(" => ")
         t = lhs.split()
-        if not t or len(lhs) > 3000:
+        if not t or (len(lhs) > 3000 and t[0] != "mpass"):
             continue
         e = render(t[0], t[1:], rhs.split())
         if e:
             exprs.append((l, e))
     # an even sample over the renderable lines, every op kind represented
+    if engine == "maint":
+        sample = min(sample, 24)      # a whole maintainer pass per line: ~2 s each inside Coq
     if len(exprs) > sample:
         step = len(exprs) / float(sample)
         exprs = [exprs[int(i * step)] for i in range(sample)]
